@@ -5,6 +5,7 @@ import UF.Proofs.MatchDomain
 import UF.Proofs.MatchSpec
 import UF.Proofs.ParseWF
 import UF.Proofs.Bits
+import UF.Proofs.ParsePerm
 /-
   C04 — a rule matches iff its pattern and every modifier are satisfied; value order never matters.
   Property theorems only (helper lemmas live in UF/Proofs/Match*.lean, Merge*.lean, Parse*.lean).
@@ -123,6 +124,37 @@ theorem c04_perm_values (ext : Ext) (r : NetRule) (q : Request)
     permClients := finalize_permEquiv ph ph' pnets pnets' h8 h10,
     restrClients := finalize_permEquiv rh rh' rnets rnets' h9 h11,
     enabled := rfl, disabled := rfl, permTypes := rfl, restrTypes := rfl }
+
+/-- Value order never matters (3), at the level of the modifier's VALUE TEXT: writing the
+    `|`-separated values of `$ctag` in another order gives the same parsed (sorted) lists, or the
+    same error. -/
+theorem c04_perm_text_ctag {l l' : List Bytes} (h : l.Perm l') (hne : l ≠ [])
+    (hs : sepFree (ch '|') l) :
+    loadCTags (joinSep l [ch '|']) = loadCTags (joinSep l' [ch '|']) :=
+  loadCTags_perm h hne hs
+
+/-- … of `$domain` / `$denyallow`: the parsed permitted / restricted lists are permutations of
+    each other (or both texts are rejected); `c04_perm` then gives equal `Match`. -/
+theorem c04_perm_text_domain {l l' : List Bytes} (h : l.Perm l') (hne : l ≠ [])
+    (hs : sepFree (ch '|') l) :
+    PE.Rel (fun a b => a.1.Perm b.1 ∧ a.2.Perm b.2)
+      (loadDomains (joinSep l [ch '|']) (ch '|')) (loadDomains (joinSep l' [ch '|']) (ch '|')) :=
+  loadDomains_perm h hne hs
+
+/-- … of `$dnstype`. -/
+theorem c04_perm_text_dnstype {l l' : List Bytes} (h : l.Perm l') (hne : l ≠ [])
+    (hs : sepFree (ch '|') l) :
+    PE.Rel (fun a b => a.1.Perm b.1 ∧ a.2.Perm b.2)
+      (loadDNSTypes (joinSep l [ch '|'])) (loadDNSTypes (joinSep l' [ch '|'])) :=
+  loadDNSTypes_perm h hne hs
+
+/-- … of `$client`, on the values as `splitWithEscapeCharacter` delivers them: the finalized
+    client sets have equal host lists and subnets that are permutations of each other. -/
+theorem c04_perm_text_client (ext : Ext) {l l' : List Bytes} (h : l.Perm l') :
+    PE.Rel (fun a b => Clients.PermEquiv (Clients.finalize a.1) (Clients.finalize b.1) ∧
+                       Clients.PermEquiv (Clients.finalize a.2) (Clients.finalize b.2))
+      (l.foldlM (loadClientsStep ext) (none, none)) (l'.foldlM (loadClientsStep ext) (none, none)) :=
+  loadClients_items_perm ext h
 
 /-- Generated-fact obligation: every key of `dns.StringToType` is ASCII, which is what makes the
     `upperKey` model of `strings.ToUpper` + map lookup in `strToRRType` exact for non-ASCII input. -/
